@@ -35,6 +35,15 @@ def stiff_linear(lam, n):
             "jac": [[C(A[i][j]) for j in range(n)] for i in range(n)], "exact": ex}
 
 
+def stiff_diag(lam, n):
+    """decoupled modes: one slow, the others fast"""
+    rates = [1.0] + [lam * (1.0 + 0.1 * i) for i in range(1, n)]
+    y0 = [1.0] + [0.3] * (n - 1)
+    return {"name": "stiff_diag%d" % n, "f": [mul(C(-rates[i]), Y(i)) for i in range(n)], "y0": y0,
+            "jac": [[C(-rates[i]) if i == j else C(0.0) for j in range(n)] for i in range(n)],
+            "exact": (lambda t: [y0[i] * math.exp(-rates[i] * t) for i in range(n)])}
+
+
 def builder(seed, n, defaults, tag):
     rng = random.Random(seed)
     cases, metas = [], {}
@@ -42,17 +51,28 @@ def builder(seed, n, defaults, tag):
     ngroups = max(2, n // (2 * len(LAMS)))
     for gi in range(ngroups):
         for method in ("RADAU", "BDF"):
-            kind = rng.choice(["forced", "linear"])
+            kind = rng.choice(["forced", "linear", "diag"])
             nn = rng.randint(2, 8)
             y0 = rng.choice([0.0, 0.5])
             span = rng.uniform(0.5, 2.0)
             rt = 10 ** rng.uniform(-7, -3)
             use_jac = rng.random() < 0.5
+            backward = rng.random() < 0.4
             for lam in LAMS:
-                prob = stiff_forced(lam, y0) if kind == "forced" else stiff_linear(lam, nn)
-                kw = dict(method=method, prob=prob, x0=0.0, xend=span, rtol=rt, atol=rt * 1e-3, defaults=defaults, use_jac=use_jac)
+                prob = stiff_forced(lam, y0) if kind == "forced" else stiff_linear(lam, nn) if kind == "linear" else stiff_diag(lam, nn)
+                xe = span
+                if backward:
+                    # the time-reflected problem z' = -f(-s, z), integrated from 0 to -span, is the same stable problem
+                    from .p_c13 import subst_reflect
+                    ex0 = prob["exact"]
+                    prob = dict(prob)
+                    prob["f"] = ["neg," + subst_reflect(e) for e in prob["f"]]
+                    prob["jac"] = [["neg," + subst_reflect(e) for e in row] for row in prob["jac"]]
+                    prob["exact"] = (lambda t, ex0=ex0: ex0(-t))
+                    xe = -span
+                kw = dict(method=method, prob=prob, x0=0.0, xend=xe, rtol=rt, atol=rt * 1e-3, defaults=defaults, use_jac=use_jac)
                 cid = "%s%d_%g" % (tag, g, lam)
-                meta = {"family": prob["name"], "n": len(prob["y0"]), "backward": False, "tolmode": "mixed", "method": method,
+                meta = {"family": prob["name"], "n": len(prob["y0"]), "backward": backward, "tolmode": "mixed", "method": method,
                         "group": g, "lam": lam, "exact": prob["exact"], "fdjac": not use_jac}
                 cases.append(gen.solve_case(cid, **kw))
                 metas[cid] = (meta, kw)
